@@ -4,7 +4,7 @@ from __future__ import annotations
 from sa.terms import C, CallT, P, Sub, SubC, show, show_fact
 from sa.walker import State
 
-from . import CHECKER, VSIG, call_events, fn_site, loc, mentions
+from . import own_site, CHECKER, VSIG, call_events, flat, fn_site, loc, mentions
 
 EXPLANATION = (
     "Walk of verify_delegation (all paths). On every accepting path: R1 the trusted side passed the delegating-metadata "
@@ -18,7 +18,7 @@ EXPLANATION = (
 RULE_TEXT = "obligations per clause over all accepting paths and per distinct rejection cause; non-trivial: decided from path facts / call events with parameter-rooted access paths"
 
 
-def run(ctx):
+def run(ctx, deps=True):
     eng = ctx.eng
     ctx.assume("A1", "A3", "A8")
     sm = eng.walk("authentication.verify_delegation")
@@ -79,7 +79,7 @@ def run(ctx):
         if p.kind != "raise":
             continue
         x = p.value
-        cause = _cause(p, x, name, U, T, gpg, D, K, th)
+        cause = _cause(eng, p, x, name, U, T, gpg, D, K, th)
         k = (cause or "other", x.exc, x.chain[0].key())
         if k in seen:
             continue
@@ -89,18 +89,21 @@ def run(ctx):
     ctx.floor("R3.instances", 1)
 
     # ---- "met by valid signatures" is C01's rule set, re-evaluated here
-    from . import c01
+    if deps:
+        from . import c01, c02
 
-    c01.run(ctx.sub("DEP-C01"))
+        c01.run(ctx.sub("DEP-C01"))
+        # "properly signed metadata is accepted" also needs the verifier's completeness (C02)
+        c02.run(ctx.sub("DEP-C02"), deps=False)
 
 
-def _cause(p, x, name, U, T, gpg, D, K, th):
+def _cause(eng, p, x, name, U, T, gpg, D, K, th):
     from .vs import envelope
 
     top = x.chain[0]
     facts = p.facts
     st = State(facts=facts)
-    if len(x.chain) == 1 and x.origin == "explicit":
+    if x.origin == "explicit" and all(own_site(eng, st_, "authentication.verify_delegation") for st_ in x.chain):
         # a deliberate rejection needs the negation of a clause on its path
         if ("nothas", D, name) in facts:
             return "role is delegated by the trusted metadata"
@@ -112,8 +115,8 @@ def _cause(p, x, name, U, T, gpg, D, K, th):
         if any(f[0] in ("notin", "nottype") and f[1] == gpg for f in facts):
             return "gpg is a boolean"
         return None
-    for ev in p.events:
-        if ev[0] == "call" and ev[1] == top and ev[5][0] == "raise":
+    for ev in flat(p):
+        if ev[0] == "call" and ev[5][0] == "raise" and (ev[1] == top or ev[1] in x.chain):
             if ev[2] == CHECKER and ev[3] and ev[3][0] == T:
                 return "well-formedness of the trusted metadata"
             if ev[2] == "repo:common.checkformat_signable" and ev[3] and ev[3][0] == U:
